@@ -89,6 +89,8 @@ def o_file(a):
         over = dict(duration=a['duration'])
         if a.get('charging'):
             over.update(charging=True, chrgtstep=500.)
+        if a.get('band'):          # the energy window of the simulation may be wider than the band the response matrix tabulates
+            over.update(emin=a['band'][0], emax=a['band'][1])
         simdrive.simulate(simdrive.config_path(a['config']), path, du_id=a['du'], seed=a['seed'], **over)
         with fits.open(path) as h:
             ev, mc = h['EVENTS'].data, h['MONTE_CARLO'].data
@@ -186,6 +188,8 @@ def explore(chk, budget=1):
     for p in sel:
         run_oracle(chk, 'rmf', dict(path=p))
     corr_search(chk, g, sel[:3] if chk.tier == 'quick' else sel)
+    run_oracle(chk, 'file', dict(config='toy_point_source.py', charging=False, du=int(g.integers(1, 4)), seed=int(g.integers(1, 10 ** 6)), duration=300.,
+                                 band=(float(g.choice([0.5, 0.7])), float(g.choice([13., 14.5]))))) 
     cfgs = [('toy_point_source.py', False), ('toy_point_source_bkg.py', False), ('toy_point_source.py', True)]
     if chk.tier != 'quick':
         cfgs += [('toy_multiple_sources.py', False), ('toy_disk.py', True)]
